@@ -179,6 +179,14 @@ void Server::Impl::onTcpReceived(const TcpServer::ConnToken &ct, Buffer &buff)
             auto sp_ctx = make_shared<Context>(wp_parent_, ct, conn->req_index++, req);
             handle(sp_ctx, 0);
 
+            //! 已经是最后一个请求了，同一批数据里后面的内容不再处理
+            if (!tcp_server_.isClientValid(ct))
+                break;
+            if (conn->close_index != numeric_limits<int>::max()) {
+                buff.hasReadAll();
+                break;
+            }
+
         } else if (conn->req_parser.state() == RequestParser::State::kFail) {
             LogNotice("parse http from %s fail", tcp_server_.getClientAddress(ct).toString().c_str());
             tcp_server_.disconnect(ct);
@@ -224,6 +232,12 @@ void Server::Impl::commitRespond(const TcpServer::ConnToken &ct, int index, Resp
 
     Connection *conn = static_cast<Connection*>(tcp_server_.getContext(ct));
     TBOX_ASSERT(conn != nullptr);
+
+    //! 要求关闭连接的请求之后的回复一律不发送
+    if (index > conn->close_index) {
+        delete res;
+        return;
+    }
 
     if (index == conn->res_index) {
         //! 将当前的数据直接发送出去
